@@ -61,6 +61,14 @@ func verifHarness_C05_abort() {
 		code = verifInt("code")
 		verifAssume(verifAnd(code >= 100, code <= 599))
 	}
+	// a second AbortWithStatus in the same request (an outer layer overruling an inner one):
+	// nothing is committed yet, so the later status is the one that counts
+	twice := api == 2 && verifChoice("twice", 2) == 1
+	code2 := 0
+	if twice {
+		code2 = verifInt("code2")
+		verifAssume(verifAnd(code2 >= 100, code2 <= 599))
+	}
 	st := &verifAbortState{}
 	mk := func(i int) HandlerFunc {
 		if i != p {
@@ -97,6 +105,9 @@ func verifHarness_C05_abort() {
 			}
 			if again {
 				c.Next()
+			}
+			if twice {
+				c.AbortWithStatus(code2)
 			}
 			if !c.IsAborted() {
 				st.badFlag = true
@@ -136,7 +147,11 @@ func verifHarness_C05_abort() {
 	}
 	if api == 2 {
 		if when != 1 && !writeFirst {
-			verifAssert(rec.whCalls == 1 && rec.whStatus == code, "AbortWithStatus determines the response status")
+			want := code
+			if twice {
+				want = code2
+			}
+			verifAssert(rec.whCalls == 1 && rec.whStatus == want, "AbortWithStatus determines the response status (the latest one, while nothing is committed)")
 		} else {
 			verifAssert(rec.whCalls == 1, "one header commit")
 		}
@@ -227,7 +242,8 @@ func verifHarness_C05_longChain() {
 // Chains at and around the documented handler limit, built through every
 // registration route: whatever registration accepts must honour Abort.
 func verifHarness_C05_limitShapes() {
-	total := 61 + verifChoice("total", 5) // middleware count 61..65 (+ main)
+	// middleware count (+ main): around the limit, and around the sizes at which a narrow counter would wrap
+	total := []int{61, 62, 63, 64, 65, 126, 127, 128, 129, 200, 255, 256, 257, 300}[verifChoice("total", 14)]
 	shape := verifChoice("shape", 4)
 	abortAt := verifChoice("abortAt", 2) // 0: first handler aborts, 1: nobody aborts
 	st := &verifAbortState{}
